@@ -15,8 +15,8 @@
      at level 1 (result names with a trailing "+"); one vector of equal size at level 2 - so result k
      is the successor of state argument k and can be fed back. *)
 From Coq Require Import Reals List.
-From SM.specs Require Import C04_spec.
-From SM.proofs Require Import Layout Positional.
+From SM.specs Require Import C04_spec SourceFacts_spec.
+From SM.proofs Require Import Layout Positional SourceFacts.
 
 Theorem C04_results_closed : results_closed.
 Proof. exact results_closed_proof. Qed.
@@ -30,3 +30,13 @@ Print Assumptions C04_levels_are_regroupings.
 Theorem C04_positional_successor : positional_successor.
 Proof. exact positional_successor_proof. Qed.
 Print Assumptions C04_positional_successor.
+
+(* the compactness argument: every compile helper of engines/casadi.py (its tests on `compact` are read off the
+   source on every run, translator/facts.py) puts EVERY integer into the documented class (<= 0, == 1, > 1), which
+   is the level 0 | 1 | _ the model computes with *)
+Theorem C04_helpers_use_documented_levels : helpers_use_documented_levels.
+Proof. exact helpers_use_documented_levels_proof. Qed.
+Print Assumptions C04_helpers_use_documented_levels.
+Theorem C04_model_level_is_documented : model_level_is_documented.
+Proof. exact model_level_is_documented_proof. Qed.
+Print Assumptions C04_model_level_is_documented.
